@@ -3,6 +3,9 @@
 mod events;
 mod pgen;
 mod drivers;
+mod simpipe;
+mod sched;
+mod rig;
 
 use std::collections::HashMap;
 
@@ -34,8 +37,8 @@ fn parse_args() -> Args {
 
 fn main() {
     let args = parse_args();
-    let log = events::Log::create(&args.out).expect("cannot create trace file");
-    let res = std::panic::catch_unwind(std::panic::AssertUnwindSafe(|| drivers::run(&args, &log)));
+    let log = events::init(&args.out);
+    let res = std::panic::catch_unwind(std::panic::AssertUnwindSafe(|| drivers::run(&args, log)));
     log.finish(&format!("{}.scn", args.out));
     match res {
         Ok(Ok(())) => {}
